@@ -236,6 +236,34 @@ def _fault(op, h0, sp, s0, s1, target, fault_at):
         w.cleanup()
 
 
+def _perm(op, h0, sp, s0, s1, target, at):
+    """C17 with the one error the packer handles specially: the at-th opening of a file for reading fails with
+    PermissionError (a file locked by another process).  The operation completes or raises; nothing stored before is
+    lost; a rerun on a new handle reaches the normal result."""
+    w = make_world(target)
+    try:
+        pre, new, deleted, run = _setup(w, op, h0, sp, s0, s1)
+        w.install_perm_fault(at)
+        try:
+            run(w.c)
+        except OSError:
+            pass
+        w.install_perm_fault(-1)
+        if not _image_ok(w.image(), w, pre, new, deleted, op):
+            return False
+        if op == 'repack':
+            return True  # an interrupted repack needs manual repair
+        w.c.close()
+        w.remove_locks()
+        c2 = w.new_handle()
+        run(c2)
+        return inv_ok(w.image(), w, objs_map(w, pre + new), exact=True)
+    finally:
+        if getattr(w, 'src', None) is not None:
+            w.src.cleanup()
+        w.cleanup()
+
+
 from harness.slices import OPS  # noqa: E402,F401
 
 
